@@ -15,7 +15,7 @@ cd /verif
 VERIF_REPO="$wt" VERIF_EVIDENCE_DIR="$out" VERIF_REPLAY_DIR="$out" ./check "$prop" --tier "$tier" > "$out/log" 2>&1
 rc=$?
 # the change must still be in place (a scratch worktree that vanished would silently mean "checked /repo")
-if [ ! -d "$wt/pipefunc" ] || git -C "$wt" diff --quiet; then echo "SCRATCH WORKTREE LOST ITS CHANGE"; rc=2; fi
+if [ ! -d "$wt/pipefunc" ] || git -C "$wt" diff --quiet HEAD; then echo "SCRATCH WORKTREE LOST ITS CHANGE"; rc=2; fi
 echo "check $prop ($tier) exit: $rc"
 grep -m3 -A2 "^VIOLATION\|^MACHINERY" "$out/log" | cut -c1-400
 tail -1 "$out/log" | cut -c1-300
